@@ -158,6 +158,7 @@ static void one_stream(unsigned level, unsigned nblk, unsigned perm)
   PROP(empty(reord_q), "every block leaves the reorder queue");
   PROP(n_written == nblk, "every block reaches the writer exactly once");
   for (i = 0; i < NBLK; i++) PROP(i >= nblk || written_ids[i] == i, "blocks reach the writer in stream order (C03/C11)");
+  ASSUME(nblk <= NBLK);
   uninit();
   {
     uint32_t cc = 0; unsigned t = outlen - 10;
@@ -182,7 +183,9 @@ void h_stream_frame(void)
 #ifndef SECOND_NBLK
 #define SECOND_NBLK 1
 #endif
-  one_stream(IN.level[1], SECOND_NBLK, 0);
+  /* the second operand may be empty (no block at all): its stream CRC must then be 0 */
+  one_stream(IN.level[1], (IN.n_coll & 1) ? SECOND_NBLK : 0, 0);
+  if (!(IN.n_coll & 1)) WITNESS("empty_second_stream");
   WITNESS("second_stream_written");
 }
 
